@@ -52,8 +52,8 @@ class Handler(object):
   def echo(self, s):
     return self._do('echo', (s,))
 
-  def ping(self):
-    return self._do('ping', ())
+  def ping(self, *why):
+    return self._do('ping', tuple(why))
 
   def pass_msg(self, m):
     return self._do('pass_msg', (m,))
@@ -340,6 +340,64 @@ def run_sequences(first_idx):
   return {'n': n, 'keys': len(keys), 'viol': viol, 'sample': {'sequence': [[allc[i][1], allc[i][3]] for i in seqs[-1]]} if seqs else None}
 
 
+def wsvc():
+  from ..gen_py.wsvc import WSvc, WBase
+  return WSvc, WBase
+
+
+def two_service_cases():
+  """Two unrelated service families whose methods have the same names and different signatures (both use service
+  inheritance).  (family, method, args, oneway, server value)"""
+  VSvc, VBase, T = vsvc()
+  v = [('v', 'echo', ('é',), False, 'r-é'), ('v', 'ping', (), False, None), ('v', 'add', (1, 2), False, 3),
+       ('v', 'fetch', ('k',), False, T.Resp('f', ['x'])), ('v', 'touch', ('k',), False, None), ('v', 'fire', ('go',), True, None)]
+  w = [('w', 'echo', (2 ** 40 + 5,), False, 2 ** 41), ('w', 'ping', ('why-é',), False, None), ('w', 'add', (2 ** 33, 5), False, 2 ** 33 + 5),
+       ('w', 'fetch', (7,), False, 'str-é'), ('w', 'touch', ('k2',), True, None), ('w', 'fire', ('s2',), False, None)]
+  return v, w
+
+
+def run_two_services():
+  """Two clients for two different interfaces alive in one process: every ordered pair (call on one, then call on the
+  other); each call must be encoded with its own interface's argument struct and message type and decode its own reply."""
+  from thrift.Thrift import TMessageType
+  VSvc, VBase, T = vsvc()
+  WSvc, WBase = wsvc()
+  vc, wc = two_service_cases()
+  viol = []
+  n = 0
+  keys = set()
+  for first in vc + wc:
+    for second in (wc if first[0] == 'v' else vc):
+      world.reset()
+      chains = {'v': Chain(VSvc.Iface, VSvc.Processor), 'w': Chain(WSvc.Iface, WSvc.Processor)}
+      for pos, case in enumerate((first, second)):
+        fam, method, args, oneway, value = case
+        ch = chains[fam]
+        ch.handler.outcome, ch.handler.value = 'value', value
+        ar, sent, reqs, reply = ch.call(method, args, [])
+        n += 1
+        bad = None
+        if len(reqs) != 1:
+          bad = 'the %s service\'s processor decoded %d requests (%r)' % (fam, len(reqs), ch.peer.errors[-1:])
+        elif reqs[0][1][0] != method or ch.handler.calls[-1] != (method, args):
+          bad = 'server decoded %s%r, caller passed %s%r' % (ch.handler.calls[-1][0], ch.handler.calls[-1][1], method, args)
+        elif reqs[0][1][1] != (TMessageType.ONEWAY if oneway else TMessageType.CALL):
+          bad = 'message type %d for a %s method' % (reqs[0][1][1], 'oneway' if oneway else 'two-way')
+        elif not oneway:
+          got = observe(ar)
+          if got != ('value', value):
+            bad = 'caller observed %r, expected %r' % (got, ('value', value))
+        keys.add((first[:2], second[:2], pos, bad is None))
+        if bad:
+          viol.append({'clause': 'C14.two-services', 'message': 'clients for two interfaces in one process, %s: %s.%s%r: %s'
+                       % ('first call' if pos == 0 else 'after %s.%s on the other client' % (first[0], first[1]), fam, method, args, bad),
+                       'sig': {'method': method}, 'replay': {'first': list(first[:2]), 'second': list(second[:2])}})
+          break
+      if len(viol) >= 3:
+        return {'n': n, 'keys': len(keys), 'viol': viol, 'sample': None}
+  return {'n': n, 'keys': len(keys), 'viol': viol, 'sample': {'two_services': 'v.echo then w.echo'}}
+
+
 def run_readall(max_len, max_cuts):
   """ScalesSocket.readAll and VarzSocketWrapper.readAll directly: every split of a byte string."""
   import gevent
@@ -448,6 +506,7 @@ def main(tier, seed):
   try:
     out = explore.pmap('vt.checks.c14', 'run_cases', jobs, pool, seed)
     out += explore.pmap('vt.checks.c14', 'run_sequences', [([i],) for i in range(len(allc))], pool, seed)
+    out += explore.pmap('vt.checks.c14', 'run_two_services', [()], pool, seed)
     out += explore.pmap('vt.checks.c14', 'run_readall', [(7 if tier == 'quick' else 9, 3 if tier == 'quick' else 4)], pool, seed)
   finally:
     pool.close()
@@ -467,7 +526,8 @@ def main(tier, seed):
     rule='every (interface, method, argument, server outcome) case x every split of the reply byte stream with <= k cut points plus '
          'one-byte-at-a-time, through the real serializer + transport + socket wrappers; request bytes decoded by the generated '
          'Processor; every ordered pair (and the triples containing a non-value outcome) of cases on ONE client, each call compared '
-         'with its outcome on a fresh client; readAll of both socket classes over every split of short strings', exhaustive=True)
+         'with its outcome on a fresh client; two clients for two interfaces with equally named methods in one process, every ordered '
+         'pair of calls; readAll of both socket classes over every split of short strings', exhaustive=True)
 
 
 def replay(path):
